@@ -222,5 +222,36 @@ def _async_spec(it, env, name, text, data, fc):
     return it.call_method(p, name, [data], {"filter_context": fc})
 
 
+def _register_env_file(name):
+    @contract(f"JSONPathEnvironment.{name}[file]==compile().{name}", ("C11",), [f"jsonpath.env:JSONPathEnvironment.{name}"])
+    def _c(ctx, name=name):
+        """A file-like document is handed to the compiled query as it is (the compiled query decodes it,
+        whatever mode it was opened in): the environment-level form neither reads nor replaces it."""
+        text = ctx.str("path")
+        fc = ctx.val("filter_context")
+
+        def mk(it):
+            import io
+
+            env = env_obj(it)
+            env.fields["compile"] = lib.Builtin("compile", lambda it_, a, k: _abstract_path(it_, a[0]))
+            f = it.alloc(io.BytesIO, {}, origin="CALLER")
+            f.fields["read"] = lib.Builtin("read", lambda it_, a, k: S.mk_str("<what read() returns>"))
+            return env, f
+
+        def code(it):
+            env, f = mk(it)
+            return it.run_function(method(envm.JSONPathEnvironment, name), [env, Py.str(text), f], {"filter_context": fc})
+
+        def spec(it):
+            env, f = mk(it)
+            if name.endswith("_async"):
+                return _async_spec(it, env, name, Py.str(text), f, fc)
+            return it.run_function(spec_fn(fspec, "env_" + name), [env, Py.str(text), f, fc], {})
+
+        ctx.equiv(name + "[file]", code, spec)
+
+
 for _n in ("findall", "finditer", "match", "findall_async", "finditer_async"):  # query(): Query(iter(...)) - bounded in monitors/c11.py
     _register_env(_n)
+    _register_env_file(_n)
